@@ -728,8 +728,8 @@ class Variant:
 def run_jobs(variant, jobs, workdir, instrument=True, timeout=None):
     """run [[ops, ending]...] in sandboxed children, restarting after a child that had to leave; -> list of obs"""
     from harness.sandbox import run_sandboxed
-    out = os.path.join(workdir, "o%s_%d_%d.jsonl" % (variant.name.replace("/", "_"), os.getpid(), random.getrandbits(40)))
-    open(out, "w").close()
+    fd, out = tempfile.mkstemp(prefix="o%s_" % variant.name.replace("/", "_"), suffix=".jsonl", dir=workdir)
+    os.close(fd)
     res = {}
     skip = 0
     guard = 0
